@@ -27,26 +27,29 @@ How the clauses of the property are covered
   closed system (frame theorem, `NrfProofs/NetFrameAllK.lean`);
 * `C14_off`: pure, all 781 nodes, all admissible configurations.
 
-* closed system, composed (`C14_level_closed_partial`): a whole tree network (`NetOk`), one level, relays off, a
-  single-frame user message: `multicast()` returns True, exactly the other nodes of the level hold the
-  packet, nobody acknowledges, and at the next scheduling point each of them queues the frame once —
-  the sender's EN_AA / TX_ADDR are as programmed when the packet leaves the radio (the scheduling point of
-  `send()` lies before the transmission and the network is quiet);
+* closed system, composed (`C14_level_closed`; the earlier `C14_level_closed_partial` is kept): a whole tree
+  network (`NetOk`), one level, relays off, a single-frame user message: `multicast()` returns True, exactly
+  the other nodes of the level hold the packet, nobody acknowledges, **the call appended exactly one record to
+  the air log** (the caller's radio, one attempt, no acknowledgement awaited), and at the next scheduling
+  point — the `update()` of ANY node, a receiver included — each receiver queues the frame once and **nothing
+  more goes on the air**; the sender's EN_AA / TX_ADDR are as programmed when the packet leaves the radio
+  (the scheduling point of `send()` lies before the transmission and the network is quiet);
 * `C14_receivers_listening`, `C14_nobody_acks_listening`: the medium clauses on C07's predicate
   `Nrf.Spec.Listening` (bridge: NrfProofs/C14Bridge.lean); with C07's history theorem discharged:
-  `Nrf.Proofs.C14AfterApi.receivers_after_api` (NrfProofs/C14AfterApi.lean — it cannot be stated in this
-  file: the C07 proof stack and the closed-system stack used here both define `Nrf.Net.nexec`).
+  `C14_receivers_after_api` (proof: NrfProofs/C14AfterApi.lean; the C07 proof stack and the closed-system
+  stack used here share `Nrf.Net.nexec` & co. through NrfProofs/NetExecCore.lean, so both can be imported).
+
+* closed system, one relay level composed (`C14_relay_closed`): the addressed level (1..3) holds one other
+  node, whose `multicast_relay` is on: at its `update()` it queues the frame, re-multicasts it ONCE to the next
+  level (second air record: its radio, the next level's address, one attempt, unacknowledged), and exactly the
+  other nodes of the next level — the original sender included when it sits there — queue it once.
 
 What is *not* claimed (DESIGN §4.2/§7): collisions of simultaneous relays on real air; in the closed
-system: the relay step composed (a receiver with `multicast_relay` on re-broadcasting to the next level —
-`C14_handle` + `C14_relay_address` give the step, `C14_level_closed_partial` the delivery of one transmission; the
-composition needs `multicast_sent` from a state in which other receivers still hold the packet, i.e.
-without its "all RX FIFOs empty" hypothesis), fragmented multicasts (> 24 bytes) in the closed system,
-a receiver entering `update()` itself as the *first* scheduling point (covered only through the nested
-runs inside another node's call), mixed `allow_multicast` settings in one network (`NetOk` has one
-configuration for all nodes; per radio this is `C14_receivers` / `C14_off`), and the count of air
-records of the whole call (`l3_send_noack` shows one unacknowledged cycle for the `send`; the driver
-contracts of the surrounding `auto_ack=` / `listen=` / `open_tx_pipe` calls do not mention the air log).
+system: a relay transmitting while OTHER receivers of the same multicast still hold the packet (several nodes
+on the addressed level: `multicast_relay_step`, NrfProofs/C14Closed9.lean, needs all other RX FIFOs empty),
+chains of relays over several levels, fragmented multicasts (> 24 bytes) in the closed system, mixed
+`allow_multicast` settings in one network (`NetOk` has one configuration for all nodes; per radio this is
+`C14_receivers` / `C14_off`).
 -/
 import NrfProofs.McastFrameK
 import NrfProofs.McastOpenK
@@ -56,6 +59,9 @@ import NrfProps.C04
 import NrfProofs.C14Bridge
 import NrfProofs.C14Closed4
 import NrfProofs.C13HopsExample
+import NrfProofs.C14AfterApi
+import NrfProofs.C14Closed8
+import NrfProofs.C14Closed10
 
 namespace Nrf.Props.C14
 open Nrf Nrf.NetK Nrf.Spec Nrf.Spec.Multicast Nrf.Proofs Nrf.Proofs.McastK
@@ -693,5 +699,253 @@ example : CfgOk {} ∧ NetOk {} Nrf.Net.Example.L Nrf.Net.Example.Hops.tree4 Nrf
     refine ⟨by rw [h1, h2]; decide, fun g hg => ?_⟩
     rw [h1] at hg
     cases hg
+
+/-! ## the medium, after any history of API calls (C14 ∘ C07) -/
+
+/-- **C14, who receives — after every history of admissible API calls.**  From a session in which the
+    node listens (`NodeListens`, established by `_begin`: `C07_begin`; `Quiet7`: open system, or closed
+    system with well-formed distinct radios — NrfProofs/C07Net.lean), after any sequence `cs` of
+    admissible entry points / arrivals / fault patterns that ran to completion
+    (`Nrf.Props.C07.Runs cs s s'`), the node being at the tree address `ds` with its multicast level equal
+    to its tree level: the node's radio `radioOf s'` takes a packet on the address of level `L` — on pipe
+    0 — iff the node holds level `L`, never acknowledges it, and stores it once iff moreover the RX FIFO
+    has room and the packet is no repetition.  (`C14_receivers_listening` with its hypothesis
+    `Nrf.Spec.Listening` discharged by `C07_history_listening`.) -/
+theorem C14_receivers_after_api (cs : List Nrf.Props.C07.Call) (s s' : NetState)
+    (hopen : Nrf.Net.Quiet7 s) (h : NodeListens s) (hc : Nrf.Props.C07.CfgBytes s.node.cfg)
+    (hadm : ∀ c ∈ cs, c.Admissible) (hr : Nrf.Props.C07.Runs cs s s')
+    (ds : List Nat) (hn : IsNode ds) (ha : s'.node.a.addr = val ds)
+    (hlv : s'.node.a.netLvl = ds.length)
+    {L : Nat} (hL : L ≤ 5) {x : Bytes}
+    (hx : levelAddrSpec s'.node.cfg.pfx s'.node.cfg.sfx L = some x)
+    {k : Packet} (hk : McPacket x k) (hcomp : Compatible (Nrf.Props.C07.radioOf s') k) :
+    ((Nrf.Props.C07.radioOf s').listensTo k =
+      if HoldsLevel s'.node.cfg.allowMulticast ds L then some 0 else none) ∧
+    ((Nrf.Props.C07.radioOf s').receive k).2 = none ∧
+    ((Nrf.Props.C07.radioOf s').receive k).1.rxFifo =
+      (if HoldsLevel s'.node.cfg.allowMulticast ds L ∧ (Nrf.Props.C07.radioOf s').rxFifo.length < 3 ∧
+          (Nrf.Props.C07.radioOf s').lastRx ≠ some { pid := k.pid, addr := k.addr, data := k.data }
+        then (Nrf.Props.C07.radioOf s').rxFifo ++ [{ pipe := 0, data := k.data }]
+        else (Nrf.Props.C07.radioOf s').rxFifo) ∧
+    (¬ (HoldsLevel s'.node.cfg.allowMulticast ds L ∧ (Nrf.Props.C07.radioOf s').rxFifo.length < 3 ∧
+          (Nrf.Props.C07.radioOf s').lastRx ≠ some { pid := k.pid, addr := k.addr, data := k.data }) →
+      ((Nrf.Props.C07.radioOf s').receive k).1 = Nrf.Props.C07.radioOf s') :=
+  Nrf.Proofs.C14AfterApi.receivers_after_api cs s s' hopen h hc hadm hr ds hn ha hlv hL hx hk hcomp
+
+/-- non-vacuity: a session in which node 0o123 listens after `_begin` (C07's concrete session
+    `demo`), a one-step history (an environment move) and the empty one, the node on tree node
+    `[3, 2, 1]` with its multicast level 3 = its tree level; a level address exists under the session's
+    configuration -/
+example : ∃ (s s' : NetState) (ds : List Nat), Nrf.Net.Quiet7 s ∧ NodeListens s ∧
+    Nrf.Props.C07.CfgBytes s.node.cfg ∧
+    Nrf.Props.C07.Runs [Nrf.Props.C07.Call.envFaults [Nrf.Outcome.ackLost]] s s' ∧
+    (∀ c ∈ [Nrf.Props.C07.Call.envFaults [Nrf.Outcome.ackLost]], c.Admissible) ∧
+    Nrf.Props.C07.Runs [] s s ∧ IsNode ds ∧ s.node.a.addr = val ds ∧ s.node.a.netLvl = ds.length ∧
+    levelAddrSpec s.node.cfg.pfx s.node.cfg.sfx 3 = some [0xCC, 0xCE, 0xCC, 0xCC, 0xCC] :=
+  Nrf.Proofs.C14AfterApi.receivers_after_api_example
+
+/-! ## the closed system: one level, no relays, composed — complete
+
+`C14_level_closed_partial` lacked (1) the air log and (2) `update()` entered by a receiver itself.  Both are
+proved (NrfProofs/C14Closed5.lean … C14Closed8.lean):
+
+(1) `World.air` grows only in a transmit cycle, and a cycle needs a payload in the TX FIFO: `auto_ack =`,
+`listen =`, `open_tx_pipe`, `read()`, `available()` never write the TX FIFO, so from a radio with an empty TX
+FIFO they append nothing (`Nrf.L3.AK`, for every state and argument); `send(buf, send_only=True)` with EN_AA =
+0x3E appends exactly one record (`Nrf.L3.l3_send_noack_air`).
+
+(2) an entered receiver `y` lets the other receivers run at its first `read()` (a scheduling point), then takes
+its own packet and queues it; `update()` returns the type of that frame (what `update()` returns: the type of
+the last frame handled) instead of 0.
+
+Replay on the real code (corpus/C14/closed_level.txt): `net 4 1 new m network 0 0 ; new a network 1 1 ;
+new b network 2 2 ; new c network 3 9 ; m multicast 010203 5 1 ; a update ; a read ; b read ; c read ; m read`
+— the air log after `m multicast` is one record `…/cc3ccccccc/p0/n0/…x1:1` (one attempt, sent), `a update`
+returns 5 and adds no record, `a read` and `b read` give the frame, `c read` / `m read` give `N`. -/
+
+/-- **C14, one level, closed system** (the full statement; hypotheses as in `C14_level_closed_partial`).
+    Tree network, multicast allowed, all RX FIFOs empty, the relay off everywhere, at most 400 node objects;
+    node object `s.cur` calls `multicast(msg, ty, level)` with a single-frame message of a user type;
+    `Lv = targetLevel …`.  Then
+
+    * the call returns `True`; the network is the same tree network with the sender listening again, all
+      queues as before (no loop-back);
+    * **exactly the other nodes of level `Lv`** hold the packed frame in their RX FIFO (pipe 0, once), every
+      other RX FIFO is empty; every radio other than the sender's has `receive`d the packet `k` on the address
+      of level `Lv`, and **none acknowledged**;
+    * **the air log has grown by exactly one record**: the sender's radio, the packet `k`, **one attempt,
+      reported sent** — no acknowledgement was awaited, nothing was repeated;
+    * at the next scheduling point — `update()` entered (as the session driver enters calls) by **any** node
+      `y`, the sender, a node of another level or **a receiver** — every receiver runs `update()` (inside
+      `y`'s first `read()`; `y` itself last when it is a receiver): the call returns 0, or the frame's type
+      when `y` is a receiver; **exactly the other nodes of level `Lv` have gained exactly one frame**
+      (`mcQueued`: origin = the sender's address, `to_node = 0o100`, the type, the message) **and every other
+      queue is unchanged**; all RX FIFOs are empty; the network is the same tree network; **the air log is
+      as the sender's call left it** (no receiver transmitted anything: no acknowledgement, no relay). -/
+theorem C14_level_closed (cfg : AddrCfg) (hcfg : CfgOk cfg) (ham : cfg.allowMulticast = true)
+    (L : LinkCfg) (tree : Nat → List Nat) (s : NetState) (ty : Int) (msg : Bytes) (level : Option Int)
+    (hok : NetOk cfg L tree s) (hcur : s.cur < s.nodes.length) (hsize : s.nodes.length ≤ 400)
+    (hquiet : ∀ i, i < s.nodes.length → (s.radioAt i).rxFifo = [])
+    (hty : 0 ≤ ty ∧ ty ≤ 127) (hlen : msg.length ≤ MAX_FRAG_SIZE) (hmax : msg.length ≤ s.node.maxMessageLength)
+    (hdup : ∀ j, j < s.nodes.length → ∀ l, (s.radioAt j).lastRx = some l →
+      (mcCaller s.node ty msg).pack ≠ .ok l.data)
+    (hrelay : ∀ j, j < s.nodes.length → (s.nodeAt j).relayEnabled = false)
+    (hacc : ∀ j, j < s.nodes.length → j ≠ s.cur →
+      (tree j).length = targetLevel (tree s.cur).length level →
+      Accepts (s.nodeAt j).queue (mcQueued s.node ty msg)) :
+    ∃ (s1 : NetState) (pk : Bytes) (k : Packet),
+      Nrf.Net.nexec (apiMulticast msg ty level) s = (.ok true, s1) ∧
+      (mcQueued s.node ty msg).pack = .ok pk ∧
+      levelAddrSpec cfg.pfx cfg.sfx (targetLevel (tree s.cur).length level) = some k.addr ∧
+      k.data = pk ∧
+      NetOk cfg L tree s1 ∧
+      (∀ j, (s1.nodeAt j).queue = (s.nodeAt j).queue) ∧
+      (∀ j, j < s.nodes.length → (s1.radioAt j).rxFifo =
+        if j ≠ s.cur ∧ (tree j).length = targetLevel (tree s.cur).length level
+        then [{ pipe := 0, data := pk }] else []) ∧
+      (∀ r, r ≠ s.ridAt s.cur → s1.w.radio r = ((s.w.radio r).receive k).1 ∧ ((s.w.radio r).receive k).2 = none) ∧
+      s1.w.air = s.w.air ++ [{ sender := s.ridAt s.cur, pkt := k, attempts := 1, ok := true }] ∧
+      ∀ y, y < s.nodes.length →
+        ∃ s2, Nrf.Net.nexec apiUpdate ((s1.ret).callAs y) =
+            (.ok (if y ≠ s.cur ∧ (tree y).length = targetLevel (tree s.cur).length level
+                  then ty.toNat else 0), s2) ∧
+          NetOk cfg L tree s2 ∧
+          (∀ j, j < s.nodes.length →
+            (s2.nodeAt j).queue.frames = (s.nodeAt j).queue.frames ++
+              (if j ≠ s.cur ∧ (tree j).length = targetLevel (tree s.cur).length level
+               then [mcQueued s.node ty msg] else [])) ∧
+          (∀ j, j < s.nodes.length → (s2.radioAt j).rxFifo = []) ∧
+          s2.w.air = s1.w.air :=
+  multicast_level_closed_full l3contracts cfg hcfg ham L tree s ty msg level hok hcur hsize hquiet hty hlen hmax
+    hdup hrelay hacc
+
+/-- non-vacuity: the hypotheses are those of `C14_level_closed_partial`, satisfied by the chain network
+    `four` (see the example there); here in addition: node object 1 (address 0o1, level 1) **is a receiver**
+    of the great-grandchild's multicast to level 1 — the case in which `update()` entered by node 1 returns
+    the type 5 —, node object 0 (the master) is not, and the sender is node object 3 -/
+example : Nrf.Net.Example.Hops.four.cur = 3 ∧
+    ((1 : Nat) ≠ Nrf.Net.Example.Hops.four.cur ∧ (Nrf.Net.Example.Hops.tree4 1).length =
+      targetLevel (Nrf.Net.Example.Hops.tree4 Nrf.Net.Example.Hops.four.cur).length (some 1)) ∧
+    ¬ ((0 : Nat) ≠ Nrf.Net.Example.Hops.four.cur ∧ (Nrf.Net.Example.Hops.tree4 0).length =
+      targetLevel (Nrf.Net.Example.Hops.tree4 Nrf.Net.Example.Hops.four.cur).length (some 1)) ∧
+    (5 : Int).toNat = 5 ∧
+    NetOk {} Nrf.Net.Example.L Nrf.Net.Example.Hops.tree4 Nrf.Net.Example.Hops.four :=
+  ⟨by decide, by decide, by decide, by decide, Nrf.Net.Example.Hops.four_ok⟩
+
+/-! ## the closed system: one relay level, composed
+
+Session on the real code and the model (corpus/C14/closed_level.txt): `net 4 1 new m network 0 0 ;
+new a network 1 1 ; new c network 2 9 ; new d network 3 10 ; a set multicast_relay T ; c multicast 0102 5 1 ;
+a update ; a read ; c read ; d read ; m read` — `c` (0o11, level 2) multicasts to level 1: air record
+`2>…/cc3ccccccc/…x1:1`; `a update` returns 5, queues the frame and puts `1>…/cc33cccccc/…x1:1` (level 2's
+address) on the air; `a read`, `d read` **and `c read`** (the original sender sits on level 2) give the frame,
+`m read` gives `N`. -/
+
+/-- **C14, one relay level, closed system.**  Tree network as in `C14_level_closed`; the addressed level
+    `Lv = targetLevel …` is 1..3 and holds exactly one node object `j` other than the sender; `j` has
+    `multicast_relay` on and its queue accepts the frame; every other node of level `Lv + 1` (the sender itself
+    when it sits there) has the relay off and accepts the frame.  Then `multicast()` returns `True` and, with
+    `update()` entered by `j` next:
+
+    * `update()` returns the frame's type; `j` **has queued the frame once** (still delivered to its own
+      application) and **re-broadcast it once to the next level**: the air log has grown by exactly two
+      records — the sender's packet `k` on the address of level `Lv`, then `j`'s packet `k'` on the address
+      of level `Lv + 1`, same payload, **one attempt each, no acknowledgement awaited**;
+    * **exactly `j` and the other nodes of level `Lv + 1` have gained exactly one frame** (`mcQueued`: origin
+      = the original sender, `to_node = 0o100`), every other queue is unchanged; all RX FIFOs are empty; the
+      network is the same tree network. -/
+theorem C14_relay_closed (cfg : AddrCfg) (hcfg : CfgOk cfg) (ham : cfg.allowMulticast = true)
+    (L : LinkCfg) (tree : Nat → List Nat) (s : NetState) (ty : Int) (msg : Bytes) (level : Option Int) (j : Nat)
+    (hok : NetOk cfg L tree s) (hcur : s.cur < s.nodes.length) (hsize : s.nodes.length ≤ 400)
+    (hquiet : ∀ i, i < s.nodes.length → (s.radioAt i).rxFifo = [])
+    (hty : 0 ≤ ty ∧ ty ≤ 127) (hlen : msg.length ≤ MAX_FRAG_SIZE) (hmax : msg.length ≤ s.node.maxMessageLength)
+    (hdup : ∀ i, i < s.nodes.length → ∀ l, (s.radioAt i).lastRx = some l →
+      (mcCaller s.node ty msg).pack ≠ .ok l.data)
+    (hj : j < s.nodes.length) (hjc : j ≠ s.cur)
+    (hjl : (tree j).length = targetLevel (tree s.cur).length level)
+    (hone : ∀ i, i < s.nodes.length → i ≠ s.cur →
+      (tree i).length = targetLevel (tree s.cur).length level → i = j)
+    (hlvl : 1 ≤ (tree j).length ∧ (tree j).length ≤ 3)
+    (hrelj : (s.nodeAt j).relayEnabled = true)
+    (haccj : Accepts (s.nodeAt j).queue (mcQueued s.node ty msg))
+    (hnext : ∀ i, i < s.nodes.length → i ≠ j → (tree i).length = (tree j).length + 1 →
+      Accepts (s.nodeAt i).queue (mcQueued s.node ty msg) ∧ (s.nodeAt i).relayEnabled = false) :
+    ∃ (s1 s2 : NetState) (pk : Bytes) (k k' : Packet),
+      Nrf.Net.nexec (apiMulticast msg ty level) s = (.ok true, s1) ∧
+      Nrf.Net.nexec apiUpdate ((s1.ret).callAs j) = (.ok ty.toNat, s2) ∧
+      (mcQueued s.node ty msg).pack = .ok pk ∧
+      levelAddrSpec cfg.pfx cfg.sfx (tree j).length = some k.addr ∧ k.data = pk ∧
+      levelAddrSpec cfg.pfx cfg.sfx ((tree j).length + 1) = some k'.addr ∧ k'.data = pk ∧
+      s2.w.air = s.w.air ++ [{ sender := s.ridAt s.cur, pkt := k, attempts := 1, ok := true },
+                             { sender := s.ridAt j, pkt := k', attempts := 1, ok := true }] ∧
+      NetOk cfg L tree s2 ∧
+      (∀ i, i < s.nodes.length →
+        (s2.nodeAt i).queue.frames = (s.nodeAt i).queue.frames ++
+          (if i = j ∨ (i ≠ j ∧ (tree i).length = (tree j).length + 1) then [mcQueued s.node ty msg] else [])) ∧
+      (∀ i, i < s.nodes.length → (s2.radioAt i).rxFifo = []) :=
+  multicast_relay_closed l3contracts cfg hcfg ham L tree s ty msg level j hok hcur hsize hquiet hty hlen hmax hdup
+    hj hjc hjl hone hlvl hrelj haccj hnext
+
+/-- non-vacuity: the chain master — 0o1 — 0o11 — 0o111 with `multicast_relay` on at 0o1 (`fourRelay`,
+    NrfProofs/C14Closed10.lean), the great-grandchild (node object 3, level 3) multicasting `[1, 2, 3]`, type
+    5, to level 1: `j = 1` (0o1) is the one node of level 1 and relays to level 2, where node object 2
+    (0o11) sits — all hypotheses hold -/
+example : CfgOk {} ∧ NetOk {} Nrf.Net.Example.L Nrf.Net.Example.Hops.tree4 Nrf.Net.Example.Hops.fourRelay ∧
+    Nrf.Net.Example.Hops.fourRelay.cur < Nrf.Net.Example.Hops.fourRelay.nodes.length ∧
+    Nrf.Net.Example.Hops.fourRelay.nodes.length ≤ 400 ∧
+    (∀ i, i < Nrf.Net.Example.Hops.fourRelay.nodes.length → (Nrf.Net.Example.Hops.fourRelay.radioAt i).rxFifo = []) ∧
+    (∀ i, i < Nrf.Net.Example.Hops.fourRelay.nodes.length → ∀ l,
+      (Nrf.Net.Example.Hops.fourRelay.radioAt i).lastRx = some l →
+      (mcCaller Nrf.Net.Example.Hops.fourRelay.node 5 [1, 2, 3]).pack ≠ .ok l.data) ∧
+    (1 : Nat) < Nrf.Net.Example.Hops.fourRelay.nodes.length ∧ (1 : Nat) ≠ Nrf.Net.Example.Hops.fourRelay.cur ∧
+    (Nrf.Net.Example.Hops.tree4 1).length =
+      targetLevel (Nrf.Net.Example.Hops.tree4 Nrf.Net.Example.Hops.fourRelay.cur).length (some 1) ∧
+    (∀ i, i < Nrf.Net.Example.Hops.fourRelay.nodes.length → i ≠ Nrf.Net.Example.Hops.fourRelay.cur →
+      (Nrf.Net.Example.Hops.tree4 i).length =
+        targetLevel (Nrf.Net.Example.Hops.tree4 Nrf.Net.Example.Hops.fourRelay.cur).length (some 1) → i = 1) ∧
+    (1 ≤ (Nrf.Net.Example.Hops.tree4 1).length ∧ (Nrf.Net.Example.Hops.tree4 1).length ≤ 3) ∧
+    (Nrf.Net.Example.Hops.fourRelay.nodeAt 1).relayEnabled = true ∧
+    Accepts (Nrf.Net.Example.Hops.fourRelay.nodeAt 1).queue (mcQueued Nrf.Net.Example.Hops.fourRelay.node 5 [1, 2, 3]) ∧
+    (∀ i, i < Nrf.Net.Example.Hops.fourRelay.nodes.length → i ≠ 1 →
+      (Nrf.Net.Example.Hops.tree4 i).length = (Nrf.Net.Example.Hops.tree4 1).length + 1 →
+      Accepts (Nrf.Net.Example.Hops.fourRelay.nodeAt i).queue (mcQueued Nrf.Net.Example.Hops.fourRelay.node 5 [1, 2, 3]) ∧
+        (Nrf.Net.Example.Hops.fourRelay.nodeAt i).relayEnabled = false) ∧
+    (Nrf.Net.Example.Hops.tree4 2).length = (Nrf.Net.Example.Hops.tree4 1).length + 1 := by
+  have hempty : ∀ i, i < Nrf.Net.Example.Hops.fourRelay.nodes.length →
+      (Nrf.Net.Example.Hops.fourRelay.nodeAt i).queue.frames = [] ∧
+        (Nrf.Net.Example.Hops.fourRelay.nodeAt i).queue.maxSize = 6 := by
+    intro i hi
+    rcases Nrf.Net.Example.Hops.fourRelay_lt i hi with rfl | rfl | rfl | rfl <;> decide
+  have hacc : ∀ i, i < Nrf.Net.Example.Hops.fourRelay.nodes.length →
+      Accepts (Nrf.Net.Example.Hops.fourRelay.nodeAt i).queue (mcQueued Nrf.Net.Example.Hops.fourRelay.node 5 [1, 2, 3]) := by
+    intro i hi
+    obtain ⟨h1, h2⟩ := hempty i hi
+    refine ⟨by rw [h1, h2]; decide, fun g hg => ?_⟩
+    rw [h1] at hg
+    cases hg
+  refine ⟨by decide, Nrf.Net.Example.Hops.fourRelay_ok, by decide, by decide, ?_, ?_, by decide, by decide, by decide,
+    ?_, by decide, by decide, hacc 1 (by decide), ?_, by decide⟩
+  · intro i hi
+    rcases Nrf.Net.Example.Hops.fourRelay_lt i hi with rfl | rfl | rfl | rfl <;> decide
+  · intro i hi l hl
+    have hnone : ∀ i, i < Nrf.Net.Example.Hops.fourRelay.nodes.length →
+        (Nrf.Net.Example.Hops.fourRelay.radioAt i).lastRx = none := by
+      intro i hi
+      rcases Nrf.Net.Example.Hops.fourRelay_lt i hi with rfl | rfl | rfl | rfl <;> decide
+    rw [hnone i hi] at hl
+    cases hl
+  · intro i hi hic hl
+    rcases Nrf.Net.Example.Hops.fourRelay_lt i hi with rfl | rfl | rfl | rfl
+    · exact absurd hl (by decide)
+    · rfl
+    · exact absurd hl (by decide)
+    · exact absurd rfl hic
+  · intro i hi hi1 hl
+    refine ⟨hacc i hi, ?_⟩
+    rcases Nrf.Net.Example.Hops.fourRelay_lt i hi with rfl | rfl | rfl | rfl
+    · decide
+    · exact absurd rfl hi1
+    · decide
+    · decide
 
 end Nrf.Props.C14
